@@ -343,6 +343,18 @@ pub fn finish(
     let _ = std::fs::create_dir_all(dir.join("evidence"));
     let mut violations = 0;
     let mut replay_path = None;
+    // a violation whose signature is listed as an open known finding is reported as such, not as a violation
+    let known: Option<String> = merged.violation.as_ref().and_then(|v| known_finding(prop, v));
+    if let (Some(what), Some(v)) = (&known, &merged.violation) {
+        println!("KNOWN-FINDING: property={prop} {what} (signature {})", violation_signature(v));
+    }
+    let merged_view;
+    let merged = if known.is_some() {
+        merged_view = Merged { violation: None, ..clone_counts(merged) };
+        &merged_view
+    } else {
+        merged
+    };
     if let Some(v) = &merged.violation {
         violations = 1;
         let _ = std::fs::create_dir_all(dir.join("replays"));
@@ -376,7 +388,7 @@ pub fn finish(
             "clause_evaluations": merged.clause_evals,
             "counters": merged.counters,
             "abandoned_foreign": merged.abandoned_foreign,
-            "excluded_by_known_finding": 0,
+            "excluded_by_known_finding": if known.is_some() { 1 } else { 0 },
         },
         "assumptions": assumptions,
         "wall_s": wall_s,
@@ -401,6 +413,49 @@ pub fn finish(
         merged.distinct.len()
     );
     Verdict { exit_code: 0 }
+}
+
+/// Signature used to match a violation against /verif/known_findings.json: failing clause plus the
+/// operation of the failing step (history cases) or the case kind.
+pub fn violation_signature(v: &Violation) -> String {
+    let what = v
+        .case
+        .get("ops")
+        .and_then(|o| o.as_array())
+        .and_then(|ops| ops.get(v.step))
+        .and_then(|op| op.get("op"))
+        .and_then(|o| o.as_str())
+        .map(|s| format!("op={s}"))
+        .unwrap_or_else(|| format!("kind={}", v.case.get("kind").and_then(|k| k.as_str()).unwrap_or("?")));
+    format!("clause={};{what}", v.clause)
+}
+
+/// Some(description) if the violation's signature is listed under "open" in known_findings.json.
+pub fn known_finding(prop: &str, v: &Violation) -> Option<String> {
+    let sig = violation_signature(v);
+    let bytes = std::fs::read(verif_dir().join("known_findings.json")).ok()?;
+    let k = serde_json::from_slice::<Value>(&bytes).ok()?;
+    for e in k.get("open").and_then(|o| o.as_array()).cloned().unwrap_or_default() {
+        if e.get("property").and_then(|p| p.as_str()) == Some(prop) && e.get("signature").and_then(|s| s.as_str()) == Some(sig.as_str()) {
+            return Some(e.get("what").and_then(|w| w.as_str()).unwrap_or("listed finding").to_string());
+        }
+    }
+    None
+}
+
+fn clone_counts(m: &Merged) -> Merged {
+    Merged {
+        evaluations: m.evaluations,
+        distinct: m.distinct.clone(),
+        classes: m.classes.clone(),
+        clause_evals: m.clause_evals.clone(),
+        counters: m.counters.clone(),
+        abandoned_foreign: m.abandoned_foreign,
+        samples: m.samples.clone(),
+        violation: None,
+        infra_error: m.infra_error.clone(),
+        exhaustive: m.exhaustive,
+    }
 }
 
 pub fn strategy_of<T: std::fmt::Debug + 'static>(s: impl Strategy<Value = T> + 'static) -> BoxedStrategy<T> {
